@@ -279,6 +279,7 @@ type C18Case struct {
 	Index int    `json:"index"`
 	Depth int    `json:"depth"`
 	Fixed string `json:"fixed,omitempty"` // one of the hand-written types
+	Opts  string `json:"generator_options,omitempty"` // "" (default) | all-exported-fields | export-components | export-components-and-top-level | customizer-noop
 }
 type C18Obs struct {
 	Type     string   `json:"type"`
@@ -478,7 +479,18 @@ func runC18(c *C18Case) (C18Obs, string) {
 	schemas := openapi3.Schemas{}
 	var ref *openapi3.SchemaRef
 	var err error
-	if p := catchPanic(func() { ref, err = openapi3gen.NewSchemaRefForValue(zero, schemas) }); p != nil {
+	var gopts []openapi3gen.Option
+	switch c.Opts {
+	case "all-exported-fields":
+		gopts = append(gopts, openapi3gen.UseAllExportedFields())
+	case "export-components":
+		gopts = append(gopts, openapi3gen.CreateComponentSchemas(openapi3gen.ExportComponentSchemasOptions{ExportComponentSchemas: true}))
+	case "export-components-and-top-level":
+		gopts = append(gopts, openapi3gen.CreateComponentSchemas(openapi3gen.ExportComponentSchemasOptions{ExportComponentSchemas: true, ExportTopLevelSchema: true}))
+	case "customizer-noop":
+		gopts = append(gopts, openapi3gen.SchemaCustomizer(func(string, reflect.Type, reflect.StructTag, *openapi3.Schema) error { return nil }))
+	}
+	if p := catchPanic(func() { ref, err = openapi3gen.NewSchemaRefForValue(zero, schemas, gopts...) }); p != nil {
 		o.GenErr = "panic: " + fmt.Sprint(p)
 		o.Problems = append(o.Problems, "generator-panic")
 		return o, ""
@@ -538,6 +550,12 @@ func init() {
 			for _, f := range c18FixedNames {
 				cases = append(cases, C18Case{Fixed: f})
 			}
+			// the hand-written (named) types under each generator option set
+			for _, o := range []string{"all-exported-fields", "export-components", "export-components-and-top-level", "customizer-noop"} {
+				for _, f := range c18FixedNames {
+					cases = append(cases, C18Case{Fixed: f, Opts: o})
+				}
+			}
 			for i := 0; i < n; i++ {
 				cases = append(cases, C18Case{Seed: seed, Index: i, Depth: 1 + i%4})
 			}
@@ -545,6 +563,7 @@ func init() {
 		meta := &Meta{Property: "C18", Seed: seed, Histogram: map[string]int{}, Shard: 250,
 			Rule: "hand-written recursive / embedded / `,string` / shadowed-field types + seeded random types assembled with reflect (depth 1-4: the 11 sized integers, floats, bool, string, []byte, time.Time, structs with tagged / omitempty / untagged / skipped fields, pointers, slices and maps at any level) x 6 boundary-heavy values each (integer extremes, -0, extreme floats, nil pointers, empty slices and maps, empty and long strings); the generated schema is loaded (references must resolve in the supplied component map) and every encoding validated; non-trivial = the generator produced a schema; distinct by type term"}
 		seen := map[string]bool{}
+		dflt := map[string]bool{}
 		var terms []string
 		var idx []int
 		for i := range cases {
@@ -561,6 +580,13 @@ func init() {
 				sig := p
 				if c.Fixed != "" {
 					sig = p + ":" + c.Fixed
+					// a problem the type already has under the default options is that problem; one that
+					// only shows under an option set carries the option in its name
+					if c.Opts == "" {
+						dflt[sig] = true
+					} else if !dflt[sig] {
+						sig += ":" + c.Opts
+					}
 				}
 				meta.Histogram["problem:"+sig]++
 				if term == "" {
